@@ -1180,3 +1180,8 @@ def select_for_mode(case, mode, tier):
     if op == "c09_field":
         return "indices" in case["src"] and n % 2 == 0
     return False
+
+
+# the TRANSLATED two-pass kernels (Gen/Kernels.lean) are executed against the real kernels on cases derived from the ones above
+from checks.harness import genkernels  # noqa: E402
+genkernels.install(globals(), "C09")
